@@ -308,6 +308,10 @@ CORPUS_PARSE = [
     (Case("string", ["a", "b"], ["First"]), Cfg()),
     (Case("string", ['"a"', "a"], None, "a"), Cfg()),
     (Case("integer", [0, 1], None, 0), Cfg()),
+    (Case("string", ["a", ""], None, ""), Cfg()),
+    (Case("boolean", [True, False], None, False), Cfg()),
+    (Case(None, [None, "", 0], None, ""), Cfg()),  # the member NoneType_None = None (D12) is skipped by find_member
+    (Case(None, [None, "None"], None, "None"), Cfg()),
     (Case(["string", "null"], ["a", None]), Cfg()),
     (Case("string", ["mro", "mro_", "Mro"]), Cfg(cap=True)),
     (Case("string", [1, "1"], None, "1"), Cfg()),
@@ -467,6 +471,8 @@ def e2e_case(ck: Check, camp, case: Case, cfg: Cfg, model: str, opts: dict) -> N
                 ok = isinstance(x, pyenum.Enum) and (typed(x.value) == typed(d) or (
                     opts.get("use_subclass_enum") and case.ty == "number" and not isinstance(d, bool) and x.value == d))
                 camp.hit("default:member" if ok else "default:not_member")
+                if not d:
+                    camp.hit("default:falsy_entry:" + ("member" if ok else "not_member"))  # the region of the repaired finding D25
                 if not ok:
                     ck.fail({**base, "mechanism": "default_member", "trigger": classify_default(case)}, inp,
                             f"default {d!r} names an enum value but M().e is {x!r}")
@@ -505,7 +511,18 @@ E2E_CORPUS = [
     (Case("string", ["a", "A", "a "]), Cfg(cap=True), "pydantic.BaseModel", {}),
     (Case("string", ['"a"', "a"], None, "a"), Cfg(), "pydantic_v2.BaseModel", {"set_default_enum_member": True}),
     (Case("string", ["a'b", "x"], None, "a'b"), Cfg(), "pydantic_v2.BaseModel", {"set_default_enum_member": True}),
+    # the witness of the repaired finding D25 (falsy defaults 0 / "" / false stayed raw values): must hold in every executable kind
     (Case("integer", [0, 1], None, 0), Cfg(), "dataclasses.dataclass", {"set_default_enum_member": True}),
+    (Case("integer", [0, 1], None, 0), Cfg(), "pydantic_v2.BaseModel", {"set_default_enum_member": True}),
+    (Case("integer", [0, 1], None, 0), Cfg(), "pydantic.BaseModel", {"set_default_enum_member": True}),
+    (Case("string", ["a", ""], None, ""), Cfg(), "dataclasses.dataclass", {"set_default_enum_member": True}),
+    (Case("string", ["a", ""], None, ""), Cfg(), "pydantic_v2.BaseModel", {"set_default_enum_member": True}),
+    (Case("string", ["a", ""], None, ""), Cfg(), "pydantic.BaseModel", {"set_default_enum_member": True}),
+    (Case("boolean", [True, False], None, False), Cfg(), "dataclasses.dataclass", {"set_default_enum_member": True}),
+    (Case("boolean", [True, False], None, False), Cfg(), "pydantic_v2.BaseModel", {"set_default_enum_member": True}),
+    (Case("boolean", [True, False], None, False), Cfg(), "pydantic.BaseModel", {"set_default_enum_member": True}),
+    (Case("number", [1.5, 0.0], None, 0.0), Cfg(), "pydantic_v2.BaseModel", {"set_default_enum_member": True}),
+    (Case(None, ["x", 0, "a"], None, 0), Cfg(), "dataclasses.dataclass", {"set_default_enum_member": True}),
     (Case("integer", [0, 1], None, 1), Cfg(), "dataclasses.dataclass", {"set_default_enum_member": True}),
     (Case("string", ["a", "b", None], None, "b"), Cfg(), "pydantic.BaseModel", {"set_default_enum_member": True}),
     (Case("string", ["a", "b[", "c|d", None]), Cfg(), "pydantic_v2.BaseModel", {"enum_field_as_literal": "all"}),
